@@ -72,7 +72,7 @@ fn run(input: RunInput) -> ScenFuture {
             if let Some(pad) = h {
                 resp = resp.with_header("p", "x".repeat(pad));
             }
-            Plan { delay: Duration::ZERO, response: resp }
+            Plan { delay: Duration::ZERO, response: resp, hold: Duration::ZERO }
         });
         let svc = Svc::new(&w, plan);
         let h = svc.handle();
